@@ -108,7 +108,34 @@ def eval_real(pt, case):
     out["sub_sld"] = sld3(nsf.neutron_sld(sub, **kw))
     fm = out["match"][0]
     out["at_match"] = [float(nsf.D2O_sld(f, volume_fraction=v, D2O_fraction=fm, **kw)[0]) for v in (0.0, 0.37, 1.0)]
+    # the same compound as a string, with the documented table= keyword and a freshly initialised private
+    # table: every atom (labile hydrogen included) comes from that table and the numbers are the public ones
+    out["private"] = None
+    import zlib
+    if zlib.crc32(repr(case["atoms"]).encode()) % 4 == 0:
+        try:
+            text = str(f)
+            from periodictable.formulas import formula as _formula
+            if _formula(text) == f:
+                T = private_table()
+                out["private"] = (sld3(nsf.D2O_sld(text + "@%r" % f.density, volume_fraction=case["vf"], D2O_fraction=case["d"],
+                                                   table=T, **kw)),
+                                  [float(v) for v in nsf.D2O_match(text + "@%r" % f.density, table=T, **kw)])
+        except Exception as e:  # noqa
+            out["private"] = "raises %s: %s" % (type(e).__name__, e)
     return out
+
+
+_PRIVATE = []
+
+
+def private_table():
+    if not _PRIVATE:
+        from periodictable import core, mass, density, nsf
+        T = core.PeriodicTable("c16-private")
+        mass.init(T); density.init(T); nsf.init(T)
+        _PRIVATE.append(T)
+    return _PRIVATE[0]
 
 
 def judge(run, pt, orc, case, replies):
@@ -118,6 +145,15 @@ def judge(run, pt, orc, case, replies):
     h2o, d2o, hs, ds = out["slds"]
     scale = max(abs(v) for s in out["slds"] for v in s[:2]) + 1e-300
     d, vf = case["d"], case["vf"]
+    if out.get("private") is not None:
+        pr = out["private"]
+        if isinstance(pr, str):
+            run.violation("D2O_sld / D2O_match with table=<private table> %s" % pr, case, site="private-table")
+        elif not (all(tol_close(a, b, scale) for a, b in zip(pr[0][:2], out["sld"][:2]))
+                  and tol_close(pr[1][0], out["match"][0], 1 + abs(out["match"][0]))):
+            run.violation("D2O_sld / D2O_match of a string compound with table=<fresh private table> differ from the "
+                          "public results: %r / %r vs %r / %r" % (pr[0][:2], pr[1][0], out["sld"][:2], out["match"][0]),
+                          case, site="private-table")
     # (a) solute = substituted compound, at unchanged cell volume
     sub = out["substituted"]
     if not tol_close(sub.mass / sub.density, f.mass / f.density, f.mass / f.density):
@@ -321,6 +357,20 @@ def stage_fasta(run, pt, tl, quick):
             x = nc.parse_outcome(next(rep))
             if isinstance(x, str) or not tol_close(x[0], a, scale):
                 run.disagree("fasta.Molecule.D2Osld", dict(molecule=name, vf=vf, d=d), x, a)
+    # a Molecule built from a caller's Formula, and a second one built from the same Formula with another
+    # cell volume: the first molecule still reports the match point and SLDs of its own labile formula
+    from periodictable.formulas import formula as _formula
+    for text, v1, v2 in (("C3H4H[1]NO@1.29n", 91.5, 130.0), ("C6H5H[1]7O6", 250.0, 180.0), ("C2H3H[1]NO", 71.0, 99.0)):
+        f = _formula(text)
+        m1 = fasta.Molecule("first", f, cell_volume=v1)
+        before = (m1.sld, m1.Dsld, m1.D2Omatch, m1.labile_formula.density)
+        fasta.Molecule("second", f, cell_volume=v2)
+        after = (m1.sld, m1.Dsld, m1.D2Omatch, m1.labile_formula.density)
+        mt = 100 * float(nsf.D2O_match(m1.labile_formula)[0])
+        run.count(key="molecule-reuse:" + text, nontrivial=True, tag="fasta-reuse")
+        if not all(close(a, b) for a, b in zip(before, after)) or not tol_close(m1.D2Omatch, mt, 100 * (1 + abs(mt)), rel=1e-9):
+            run.violation("a second Molecule built from the same Formula changed the first: before %r, after %r, "
+                          "D2O_match of its labile formula now %r" % (before, after, mt), dict(molecule=text), site="fasta-reuse")
     # the module-level solvent SLDs
     for got, s in ((fasta.H2O_SLD, "H2O@0.9982n"), (fasta.D2O_SLD, "D2O@0.9982n")):
         if not close(float(got), float(nsf.neutron_sld(s)[0])):
